@@ -40,6 +40,12 @@ class CompositedCacheMixin:
         super().downsize()
         self._merged_solvers = {}
 
+    def _split_child(self, s):
+        # the parts may not mention every variable of s any more, so entries keyed by those variables would keep
+        # returning the solver from before the split
+        self._remove_cached(s.variables)
+        return super()._split_child(s)
+
     def _store_child(self, ns, extra_names=frozenset(), invalidate_cache=True):
         self._remove_cached(ns.variables)
         return super()._store_child(ns, extra_names=extra_names, invalidate_cache=invalidate_cache)
